@@ -285,7 +285,10 @@ class Replayer:
             elif op == "RevertPartial":
                 mask = args[0]
                 m = torch.tensor([bool(_idx(mask, i)) for i in range(1, self.n_inds + 1)])
-                real[o].revert(m)
+                try:
+                    real[o].revert(m)
+                except LeaspyInputError:
+                    outcome = "no_fork"
             elif op == "Clone":
                 src, dis, keep = args
                 real[o] = real[src].clone(disable_auto_fork=dis, keep_last_fork=keep)
@@ -453,7 +456,12 @@ def random_history(state, rng, n_ops, indaxis):
         except LeaspyInputError:
             pass
 
-    for _ in range(n_ops):
+    mode0 = state.auto_fork_type
+    for _k in range(n_ops + 1):
+        if _k == n_ops:
+            # the caller gets its object back in the mode it had (the algorithms run afterwards rely on it)
+            state.auto_fork_type = mode0
+            break
         c = rng.choice(["pop", "pop", "ind", "ind", "read", "param", "clone", "mode", "unset", "back", "precompute"])
         if c == "pop" and pop:
             v = pop[rng.randint(len(pop))]
@@ -524,8 +532,17 @@ def record_real(config, seed, n_ops, *, fit_iter=3, perso=True):
     rec = wrap.StateRecorder(probe_every=5)
     n_ind = 7
     with rec:
-        model, data, df = zoo.make(config, n_ind=n_ind, seed=seed)
-        model.fit(data, "mcmc_saem", n_iter=fit_iter, seed=seed, progress_bar=False)
+        for attempt in range(4):
+            model, data, df = zoo.make(config, n_ind=n_ind, seed=seed + 1000 * attempt)
+            try:
+                model.fit(data, "mcmc_saem", n_iter=fit_iter, seed=seed, progress_bar=False)
+                break
+            except LeaspyInputError as e:
+                # observed (outside the listed properties): a cohort whose initial log_g is exactly 0 for a feature (mean value
+                # exactly 0.5, e.g. binary data with as many ones as zeros) is refused at sampler creation ("Scale ... should
+                # be positive"); another cohort is drawn
+                if "Scale of variable" not in str(e) or attempt == 3:
+                    raise
         rec.probe_every = 1
         random_history(model.state, np.random.RandomState(seed + 17), n_ops,
                        graph_of_state(model.state, n_ind)[0]["indaxis"])
